@@ -353,6 +353,47 @@ def rule_MP7(rep, prog, q):
                 "drainer keeps running items outside the new (serial) target", sample={"rechecks": len(rechecks), "callouts": len(callouts)})
 
 
+def rule_MP8(rep, prog, q):
+    rid = rep.rule("C03-MP8", "a redirected async item gives back the width it borrowed on EVERY intermediate level: the release loop of "
+                   "_dispatch_async_redirect_invoke tests the level it is about to release (rq) against the queue the item ran on, releases that same "
+                   "level, and advances by rq->do_targetq; the submitting lane itself is completed with CONSUME_2", floor=3)
+    fn = prog.fn("_dispatch_async_redirect_invoke")
+    rep.saw(fn)
+    cur = calls_named(fn, "_dispatch_queue_get_current")
+    rel = calls_named(fn, "_dispatch_lane_non_barrier_complete")
+    inner = [c for c in rel if c.ops[1][0] == "c" and not (c.ops[1][1] & q.CONSUME_2)]
+    final = [c for c in rel if c.ops[1][0] == "c" and (c.ops[1][1] & q.CONSUME_2)]
+    if not cur or len(inner) != 1 or len(final) != 1:
+        rep.unknown(rid, "anchor vanished in _dispatch_async_redirect_invoke (current=%d inner releases=%d final=%d)" % (len(cur), len(inner), len(final)))
+        return
+    c = inner[0]
+    lv = root_ptr(fn, c.ops[0])
+    ph = fn.inst(lv)
+    in_loop = fn.inst_reaches(c, c)
+    rep.require(rid, in_loop and ph is not None and ph.op == "phi", c.loc, fn.name, "redirect-release-not-a-loop",
+                "_dispatch_async_redirect_invoke: the intermediate-level release is not a loop over a level variable", sample={"release": c.loc})
+    # the stop test compares the level variable itself with the queue the item ran on
+    tests = [i for i in fn.all_insts() if i.op == "icmp" and i.d["pred"] in ("eq", "ne") and
+             {root_ptr(fn, i.ops[0]), root_ptr(fn, i.ops[1])} == {lv, ("i", cur[0].id)}]
+    rep.require(rid, bool(tests) and any(fn.inst_reaches(t, c) for t in tests), c.loc, fn.name, "redirect-release-tests-other-level",
+                "_dispatch_async_redirect_invoke: the loop releases level rq but its stop test does not compare rq itself with the queue the item ran on "
+                "(it looks one level ahead or behind): the innermost intermediate queue keeps one unit of width per item and eventually never runs a "
+                "barrier / any item", sample={"tests": len(tests)})
+    # advance: the loop-carried value is do_targetq of the level variable; it starts at dq->do_targetq
+    ok = False
+    if ph is not None and ph.op == "phi":
+        ok = True
+        for v, frm in ph.ops:
+            l = fn.inst(v)
+            if l is None or l.op != "load" or "do_targetq" not in prog.fields(l):
+                ok = False
+            elif fn.inst_reaches(c, l) and root_ptr(fn, l.d["ptr"]["base"]) != lv:
+                ok = False
+    rep.require(rid, ok, c.loc, fn.name, "redirect-release-advance",
+                "_dispatch_async_redirect_invoke: the level variable of the release loop is not advanced by rq = rq->do_targetq starting from dq->do_targetq",
+                sample={"phi": ph.loc if ph is not None else None})
+
+
 def run(rep, tier="quick", srcdir=None, only=None):
     prog, units = load(UNITS, tier, srcdir)
     rep.units = units
@@ -373,6 +414,8 @@ def run(rep, tier="quick", srcdir=None, only=None):
         rule_TB6(rep, prog, q)
     if want("C03-MP7"):
         rule_MP7(rep, prog, q)
+    if want("C03-MP8"):
+        rule_MP8(rep, prog, q)
 
 
 MANIFEST = {
